@@ -6,6 +6,9 @@
 //!   x <name> <maxw> <text>                                 fixed corpus / mutated / garbage (no panic)
 //!   k <name> <maxw> <text> | <parts>                       Clifford-only description: `conjugate()` of the built composite on
 //!                                                          every Pauli string -> `conj <is_stabilizer> <w> ; r ; r ...`
+//!   a <name> <maxw> <text> | <parts> | <vector> | <matrix>  ACTION of the built composite: `apply`, `apply_slice` on the vector
+//!                                                          (2^w amplitudes), `apply_mat` on the 2^w x 2 matrix (row-major)
+//!                                                          -> `act <w> | apply <re im>.. | slice <re im>.. | mat <re im>..`
 //!   s <name> <maxw> <text> | <parts> | <input digits>      Clifford-only description in a circuit: X-prepared basis state, the
 //!                                                          composite, then the inverses of the listed gates (added one by one,
 //!                                                          in reverse) and measure_all, on the stabilizer and on the vector
@@ -353,6 +356,79 @@ const GARBAGE: [&str; 44] = ["0", "1", "2", "9", ".", "e", "+", "-", "*", "/", "
     "rx", "RX(", "u3", "18446744073709551615", "18446744073709551616", "00", "Q"];
 
 // ---------------------------------------------------------------------------------------------
+// the action of a composite built by from_string
+
+fn show_c(v: &[num_complex::Complex64]) -> String
+{
+    v.iter().map(|c| format!("{} {}", fbits(c.re), fbits(c.im))).collect::<Vec<_>>().join(" ")
+}
+
+fn rand_c(rng: &mut SplitMix64, n: usize) -> Vec<num_complex::Complex64>
+{
+    (0..n).map(|_| num_complex::Complex64::new(rng.unit() - 0.5, rng.unit() - 0.5)).collect()
+}
+
+fn action_answer(name: &str, text: &str, v: &[num_complex::Complex64], m: &[num_complex::Complex64]) -> String
+{
+    match build(name, text)
+    {
+        Some(Ok(g)) => {
+            let w = g.nr_affected_bits();
+            let dim = 1usize << w;
+            if v.len() != dim { return format!("act {} | state-of-wrong-size", w); }
+            let a1 = catch(std::panic::AssertUnwindSafe(|| { let mut a = ndarray::Array1::from_vec(v.to_vec()); g.apply(&mut a); show_c(&a.to_vec()) }));
+            let a2 = catch(std::panic::AssertUnwindSafe(|| { let mut a = ndarray::Array1::from_vec(v.to_vec()); g.apply_slice(a.view_mut()); show_c(&a.to_vec()) }));
+            let a3 = catch(std::panic::AssertUnwindSafe(|| {
+                let mut a = ndarray::Array2::from_shape_vec((dim, 2), m.to_vec()).unwrap();
+                g.apply_mat(&mut a);
+                show_c(&a.iter().cloned().collect::<Vec<_>>()) }));
+            let p = || "panic".to_string();
+            format!("act {} | apply {} | slice {} | mat {}", w, a1.unwrap_or_else(p), a2.unwrap_or_else(p), a3.unwrap_or_else(p))
+        },
+        Some(Err(e)) => err_line(&e),
+        None => "panic".to_string()
+    }
+}
+
+fn gate_index(key: &str) -> usize { GATES.iter().position(|g| g.0 == key).unwrap() }
+
+/// A documented gate `key` on the given qubits (random letter case, generated arguments, random layout).
+fn keyed_part(rng: &mut SplitMix64, key: &str, bits: &[usize]) -> Part
+{
+    let (_, na, _) = GATES[gate_index(key)];
+    let nm = random_case(rng, key);
+    let idx: Vec<String> = bits.iter().map(|b| b.to_string()).collect();
+    part(rng, &nm, na, &idx, false)
+}
+
+fn lit(t: &str) -> Cst { Cst::L(String::new(), t.to_string()) }
+
+/// `[pi/2 *] base ^ exponent` with a whole exponent at and beyond the i32 range.
+fn big_power(rng: &mut SplitMix64) -> Cst
+{
+    let base = match rng.below(7)
+    {
+        0 => Cst::P(ws(rng), Box::new(Cst::N(String::new(), Box::new(lit("1")))), String::new()),
+        1 => Cst::P(String::new(), Box::new(Cst::B('-', Box::new(lit("0")), ws(rng), Box::new(lit("1")))), String::new()),
+        2 => Cst::P(String::new(), Box::new(Cst::B('+', Box::new(lit("1")), String::new(), Box::new(lit("1.0e-10")))), ws(rng)),
+        3 => Cst::P(String::new(), Box::new(Cst::B('-', Box::new(lit("1")), String::new(), Box::new(lit("1.0e-10")))), String::new()),
+        4 => Cst::L(ws(rng), "0.999999".to_string()),
+        5 => Cst::L(ws(rng), "1.0000001".to_string()),
+        _ => Cst::P(String::new(), Box::new(Cst::B('-', Box::new(lit("1.e-9")), String::new(), Box::new(lit("1")))), String::new())
+    };
+    let e = *rng.pick(&["2147483646", "2147483647", "2147483648", "2147483649", "4294967295", "4294967296", "4294967297",
+                        "10000000000", "1.e10", "1.0e11", "100000000001.", "2147483648.", "9007199254740992", "3000000000"]);
+    let exp = if rng.below(3) == 0 { Cst::P(ws(rng), Box::new(Cst::N(ws(rng), Box::new(lit(e)))), String::new()) } else { Cst::L(ws(rng), e.to_string()) };
+    let pow = Cst::B('^', Box::new(base), ws(rng), Box::new(exp));
+    match rng.below(3)
+    {
+        0 => pow,
+        1 => Cst::B('*', Box::new(Cst::B('/', Box::new(Cst::L(ws(rng), "pi".to_string())), String::new(), Box::new(lit("2")))), ws(rng), Box::new(pow)),
+        _ => Cst::B('*', Box::new(lit("1.e-3")), ws(rng), Box::new(pow))
+    }
+}
+
+// ---------------------------------------------------------------------------------------------
 // the stabilizer route of a composite built by from_string
 
 const PAULI: [PauliOp; 4] = [PauliOp::I, PauliOp::Z, PauliOp::X, PauliOp::Y];
@@ -574,6 +650,58 @@ fn main()
             out.case(&req, &answer(nm, maxw, &s));
         }
         if history.len() < 64 { history.push((req, nm.to_string(), s)); } else { let k = rng.below(64) as usize; history[k] = (req, nm.to_string(), s); }
+    }
+
+    // argument expressions with whole exponents at and beyond the i32 range
+    for _ in 0..(48 * scale)
+    {
+        let key = *rng.pick(&["rx", "ry", "rz", "u1", "crz", "u3", "cu1"]);
+        let nb = GATES[gate_index(key)].2;
+        let ix: Vec<usize> = indices(&mut rng, nb, 2, false).iter().map(|x| x.parse().unwrap()).collect();
+        let mut p = keyed_part(&mut rng, key, &ix);
+        let k = rng.below(p.args.len() as u64) as usize;
+        p.args[k].0 = big_power(&mut rng);
+        let s = p.render();
+        out.case(&format!("g {} {} {} | {}", hex("G"), maxw, hex(&s), p.ser()), &answer("G", maxw, &s));
+    }
+
+    // ACTION of the built composite (apply / apply_slice / apply_mat on random states): consecutive sub-gates on the same
+    // qubit SET in different orders (CX 0 1; CX 1 0; CX 0 1 ...), mixed with other gates, on 2..4 qubits
+    let nact = 110 * scale;
+    for i in 0..nact
+    {
+        let w = 2 + (i % 3) as usize;
+        let mut ps: Vec<Part> = vec![];
+        if rng.below(3) == 0 { ps.push(known_part(&mut rng, w, None, false)); }
+        let runs = 1 + rng.below(2);
+        for _ in 0..runs
+        {
+            let three = w >= 3 && rng.below(3) == 0;
+            let mut set: Vec<usize> = (0..w).collect();
+            rng.shuffle(&mut set);
+            set.truncate(if three { 3 } else { 2 });
+            let fam: &[&str] = if three { &["ccx", "ccz", "ccrz", "ccrx", "ccx"] } else { &["cx", "cy", "cz", "swap", "crz", "crx", "ch", "cu1", "cx", "cy", "cv"] };
+            let len = 2 + rng.below(3) as usize;
+            let same_gate = rng.coin();
+            let k0 = *rng.pick(fam);
+            for j in 0..len
+            {
+                // alternate the operand order: reversed on odd positions, sometimes a random permutation
+                let mut bits = set.clone();
+                if j % 2 == 1 { bits.reverse(); } else if j > 0 && rng.below(3) == 0 { rng.shuffle(&mut bits); }
+                let key = if same_gate { k0 } else { *rng.pick(fam) };
+                ps.push(keyed_part(&mut rng, key, &bits));
+            }
+            if rng.below(4) == 0 { ps.push(known_part(&mut rng, w, None, false)); }
+        }
+        // the register must cover qubit w-1 so that all widths occur
+        if rng.coin() { let q = w - 1; ps.push(keyed_part(&mut rng, "h", &[q])); }
+        let s = join_parts(&ps.iter().map(|p| p.render()).collect::<Vec<_>>());
+        let st = ps.iter().map(|p| p.ser()).collect::<Vec<_>>().join(" ");
+        let wd = 1 + ps.iter().flat_map(|p| p.bits.iter().map(|b| b.2.parse::<usize>().unwrap())).max().unwrap();
+        let v = rand_c(&mut rng, 1 << wd);
+        let m = rand_c(&mut rng, 2 << wd);
+        out.case(&format!("a {} {} {} | {} | {} | {}", hex("G"), maxw, hex(&s), st, show_c(&v), show_c(&m)), &action_answer("G", &s, &v, &m));
     }
 
     // Clifford-only descriptions on the stabilizer route: conjugate() on every Pauli string, and one circuit each
